@@ -165,6 +165,22 @@ def run_tlc(module, cfg, wd, workers=8, timeout=1800, simulate=None, depth=None,
     return r
 
 
+def run_apalache(spec_rel, cinit, init, inv, length, wd, timeout=900):
+    """One apalache-mc check run; returns (outcome, wall) with outcome 'NoError' | 'Error' | 'Tool'."""
+    t0 = time.time()
+    out_dir = os.path.join(wd, "apalache")
+    cmd = ["timeout", str(timeout), "apalache-mc", "check", "--cinit=" + cinit, "--init=" + init, "--inv=" + inv,
+           "--length=%d" % length, "--out-dir=" + out_dir, os.path.basename(spec_rel)]
+    p = subprocess.run(cmd, cwd=os.path.join(ROOT, os.path.dirname(spec_rel)), stdout=subprocess.PIPE,
+                       stderr=subprocess.STDOUT, text=True)
+    m = re.search(r"The outcome is: (\w+)", p.stdout)
+    outcome = m.group(1) if m else "Tool"
+    if outcome not in ("NoError", "Error"):
+        log(p.stdout[-1500:])
+        outcome = "Tool"
+    return outcome, time.time() - t0
+
+
 def tlc_ver(module):
     p = subprocess.run(["tla-sany", os.path.join(SPEC, module + ".tla")], cwd=SPEC,
                        stdout=subprocess.PIPE, stderr=subprocess.STDOUT, text=True)
